@@ -72,8 +72,6 @@ impl EntityUID {
     pub uninterp spec fn spec_type(&self) -> EntityType;
     #[verifier::external_body] pub fn entity_type(&self) -> (r: &EntityType) ensures *r == self.spec_type() { unimplemented!() }
 }
-/// every entity type has (at least two) distinct entity uids: entity ids are arbitrary strings
-pub axiom fn axiom_type_inhabited(t: EntityType) ensures exists|u: EntityUID, w: EntityUID| #[trigger] u.spec_type() == t && #[trigger] w.spec_type() == t && u != w;
 /// derived PartialEq on these types is spec equality (trusted)
 #[verifier::external_body] pub fn vx_uid_eq(a: &EntityUID, b: &EntityUID) -> (r: bool) ensures r == (*a == *b) { unimplemented!() }
 #[verifier::external_body] pub fn vx_uid_ne(a: &EntityUID, b: &EntityUID) -> (r: bool) ensures r == (*a != *b) { unimplemented!() }
